@@ -62,8 +62,10 @@ def run_unit(unit):
     res = {"uid": unit.uid, "obligations": {}, "paths": 0, "ended": 0, "unsupported": [], "error": None,
            "meta": unit.meta}
     try:
-        track_contract_module(unit.module)
         mod = importlib.import_module(unit.module)
+        for mname in sorted(sys.modules):
+            if mname.startswith("contracts.") and sys.modules[mname] is not None:
+                track_contract_module(mname)
         ip = new_interp()
         if unit.setup is not None:
             smod = importlib.import_module(unit.setup[0])
@@ -97,8 +99,18 @@ def run_unit(unit):
             }
         if ex.sample_models:
             res["crosscheck"] = crosscheck(unit, fn, ex.path_models)
-        # native replay of every refuted obligation's counter-model
-        if unit.meta.get("native_ok"):
+        # replay of every refuted obligation's counter-model against the real code
+        if unit.meta.get("replay"):
+            rmod = importlib.import_module(unit.meta["replay"][0])
+            rfn = getattr(rmod, unit.meta["replay"][1])
+            for label, ob in ex.obligations.items():
+                if ob.status == "refuted" and ob.fail and ob.fail.get("model") is not None:
+                    try:
+                        res["obligations"][label]["native"] = rfn(unit, label, ob.fail["model"])
+                    except Exception as e:
+                        res["obligations"][label]["native"] = {"confirmed": False,
+                                                               "outcome": "replay crashed: %s: %s" % (type(e).__name__, e)}
+        elif unit.meta.get("native_ok"):
             for label, ob in ex.obligations.items():
                 if ob.status == "refuted" and ob.fail and ob.fail.get("model") is not None:
                     log, outcome = native_run(fn, unit.params, ob.fail["model"])
